@@ -27,6 +27,10 @@ MIN_EVENTS = {"statements": 100, "run_return": 100}
 TEXTS = ["plain words", "create table x (y int);", "a, b (c) ; d", "select * from t", "x = 1", "50% done", "KEY index unique primary",
          "alter table t drop column a;", "NOT NULL DEFAULT 5", "todo: fix (later), maybe", "#hash inside", "CREATE SEQUENCE s START 1;", "ends with semicolon;", "a;b;c"]
 NESTED = ["50% done -- nested", "a /* b", "a */ b", "x -- y", "-- double", "a /* b */ c"]
+# a '--' inside a '--' comment is ordinary comment text (only '--' inside /* */ and /* inside -- are the known finding)
+DASH_TEXTS = ["first remark -- second remark", "-- banner --", "a--b", "ends with dashes --", "50% -- done (later), x = 1"]
+INTERIOR_FIRST = ["delete", "DELETE", "insert", "INSERT", "GO", "go", "USE", "use", "GRANT", "grant", "update", "select", "CREATE", "create", "ALTER", "DROP",
+                  "SET", "set", "PRIMARY KEY", "CONSTRAINT", "*", "--", "#", "commit;"]
 BASES = [
     ["CREATE TABLE s.t (", "  a int NOT NULL,", "  b varchar(10) DEFAULT 'x',", "  c date", ");", "CREATE SEQUENCE s.q START WITH 3;"],
     ["CREATE TABLE t1 (a int PRIMARY KEY, b decimal(10,2));", "ALTER TABLE t1 ADD CONSTRAINT fk FOREIGN KEY (a) REFERENCES p (k);", "CREATE INDEX i ON t1 (b);"],
@@ -46,7 +50,7 @@ class Marker:
 
 def make_comment(rng, style, mk, text=None, indent=""):
     """returns (lines, [comment line texts as inserted (for containment)], marker ids)"""
-    t = text if text is not None else rng.choice(TEXTS)
+    t = text if text is not None else rng.choice(TEXTS + (DASH_TEXTS if style == "dash" else []))
     m = mk.next()
     if style == "dash":
         l = [indent + "-- " + m + " " + t]
@@ -55,10 +59,14 @@ def make_comment(rng, style, mk, text=None, indent=""):
     elif style == "block1":
         l = [indent + "/* " + m + " " + t + " */"]
     elif style in ("blockml", "blockml_close_inline"):
-        n = rng.randint(2, 5)
+        n = rng.randint(2, 5) if rng.random() < 0.4 else rng.randint(3, 5)
         l = [indent + "/* " + m + " " + t]
         for j in range(n - 2):
-            l.append(indent + "   " + mk.next() + " more " + rng.choice(TEXTS))
+            if not indent and rng.random() < 0.5:
+                # an interior line that starts, at column 0, with a word the line pre-processor treats specially outside comments
+                l.append(rng.choice(INTERIOR_FIRST) + " " + mk.next() + " more " + rng.choice(TEXTS))
+            else:
+                l.append(indent + "   " + mk.next() + " more " + rng.choice(TEXTS))
         if style == "blockml":
             l.append(indent + "*/")
         else:
@@ -69,7 +77,7 @@ def make_comment(rng, style, mk, text=None, indent=""):
 
 
 def trailing(rng, style, mk, text=None):
-    t = text if text is not None else rng.choice(TEXTS)
+    t = text if text is not None else rng.choice(TEXTS + (DASH_TEXTS if style == "tdash" else []))
     m = mk.next()
     return (" -- " + m + " " + t) if style == "tdash" else (" /* " + m + " " + t + " */")
 
@@ -169,8 +177,20 @@ def exhaustive_cases(ctx):
                     ind = "   " if st.startswith("i") else ""
                     c = make_comment(rng, st.lstrip("i") if st.startswith("i") else st, mk, text=t, indent=ind)
                     yield {"gen": "exhaustive", "base": base, "lines": base[:pos] + c + base[pos:], "inserted": c, "styles": [st]}
-            for st in ["tdash", "tblock"]:
+            for st in ["tdash", "tblock", "tdash_nested"]:
                 for pos in range(len(base)):
+                    if st == "tdash_nested":
+                        if ti >= len(DASH_TEXTS):
+                            continue
+                        i += 1
+                        if not ctx.mine(i):
+                            continue
+                        mk = Marker()
+                        tail = trailing(ctx.sub_rng("exh", i), "tdash", mk, text=DASH_TEXTS[ti])
+                        l2 = list(base)
+                        l2[pos] += tail
+                        yield {"gen": "exhaustive", "base": base, "lines": l2, "inserted": [tail], "styles": ["tdash_with_inner_dashes"]}
+                        continue
                     i += 1
                     if not ctx.mine(i):
                         continue
